@@ -49,6 +49,7 @@ class SimSelector(selectors.BaseSelector):
         for fd, key in self._keys.items():
             if fd < FD_BASE and fd not in K.low:
                 continue            # asyncio's self-pipe: nothing ever arrives
+            K.touch(fd, 'aselect')       # the event loop polls this descriptor on behalf of a transport
             of = K.fds.get(fd)
             ev = 0
             if of is None:
